@@ -74,6 +74,10 @@ func sqlState(err error) string {
 	if errors.As(err, &pe) {
 		return pe.Code
 	}
+	var fe *pgfake.PgError // returned by the direct Store API
+	if errors.As(err, &fe) {
+		return fe.Code
+	}
 	return ""
 }
 
